@@ -57,9 +57,15 @@ impl<'a> World<'a> {
             let w8 = [w[0], w[1], w[2], w[3], w[4], w[5], w[6], wa];
             match self.ch.weighted(&w8) {
                 0 => self.sync(r),
-                1 => self.create_issue(r),
+                1 => {
+                    let r = if self.own == "C07" && self.ch.pick(2) == 0 { (0..self.reps.len()).find(|i| self.reps[*i].delegate).unwrap_or(r) } else { r };
+                    self.create_issue(r)
+                }
                 2 => self.issue_op(r),
-                3 => self.create_patch(r),
+                3 => {
+                    let r = if self.own == "C07" && self.ch.pick(2) == 0 { (0..self.reps.len()).find(|i| self.reps[*i].delegate).unwrap_or(r) } else { r };
+                    self.create_patch(r)
+                }
                 4 => self.patch_op(r),
                 5 => self.byzantine(r),
                 6 => self.partition(),
@@ -148,8 +154,9 @@ impl<'a> World<'a> {
     fn create_issue(&mut self, r: usize) {
         self.stamp(r);
         let title = *self.ch.choose(&TITLES[..2]);
-        let labels: Vec<Label> = if self.ch.pick(3) == 0 { vec![Label::new("bug").unwrap()] } else { vec![] };
-        let assignees: Vec<Did> = if self.ch.pick(4) == 0 { vec![Did::from(self.reps[0].nid)] } else { vec![] };
+        let c07d = self.own == "C07" && self.reps[r].delegate;
+        let labels: Vec<Label> = if self.ch.pick(3) == 0 || c07d { vec![Label::new("bug").unwrap(), Label::new("ui").unwrap()] } else { vec![] };
+        let assignees: Vec<Did> = if self.ch.pick(4) == 0 || c07d { vec![Did::from(self.reps[0].nid), Did::from(self.reps[1].nid)] } else { vec![] };
         let repo = self.repo(r);
         let existed_i: Vec<ObjectId> = self.issues.iter().copied().filter(|i| repo.backend.refname_to_id(&format!("refs/namespaces/{}/refs/cobs/{}/{}", self.reps[r].nid, &*issue::TYPENAME, i)).is_ok()).collect();
         let signer = self.reps[r].signer.clone();
@@ -183,6 +190,13 @@ impl<'a> World<'a> {
             return;
         }
         let id = self.issues[self.ch.pick_usize(self.issues.len())];
+        let r = if self.own == "C07" && self.ch.pick(3) == 0 {
+            // delegates must act often enough for labels and assignees to exist
+            let ds: Vec<usize> = (0..self.reps.len()).filter(|i| self.reps[*i].delegate).collect();
+            ds[self.ch.pick_usize(ds.len())]
+        } else {
+            r
+        };
         self.stamp(r);
         let repo = self.repo(r);
         let signer = self.reps[r].signer.clone();
@@ -191,7 +205,7 @@ impl<'a> World<'a> {
         let Ok(mut iss) = issues.get_mut(&id) else { return };
         let comments: Vec<radicle::cob::thread::CommentId> = iss.comments().map(|(c, _)| *c).collect();
         let a_comment = comments[self.ch.pick_usize(comments.len())];
-        let which = if self.own == "C07" { self.ch.weighted(&[8, 2, 1, 2, 3, 3, 1, 1, 1, 0]) } else { self.ch.weighted(&[10, 6, 4, 4, 6, 4, 4, 4, 4, 1]) };
+        let which = if self.own == "C07" { self.ch.weighted(&[8, 2, 1, 2, 3, 3, 4, 3, 1, 0]) } else { self.ch.weighted(&[10, 6, 4, 4, 6, 4, 4, 4, 4, 1]) };
         let mut noted_labels: Option<Vec<Label>> = None;
         let mut noted_assignees: Option<Vec<Did>> = None;
         let mut remove = false;
@@ -261,7 +275,8 @@ impl<'a> World<'a> {
         let signer = self.reps[r].signer.clone();
         let cache = open_cache(&self.reps[r].cache_path);
         let mut patches = patch::Cache::open(Patches::open(&repo).expect("patches"), cache);
-        let out = patches.create(*self.ch.choose(&TITLES[..2]), "patch description", patch::MergeTarget::Delegates, base, oid, &[], &signer).map(|p| *p.id());
+        let plabels: Vec<Label> = if self.own == "C07" && self.reps[r].delegate { vec![Label::new("bug").unwrap(), Label::new("ui").unwrap()] } else { vec![] };
+        let out = patches.create(*self.ch.choose(&TITLES[..2]), "patch description", patch::MergeTarget::Delegates, base, oid, &plabels, &signer).map(|p| *p.id());
         drop(patches);
         match out {
             Ok(id) => {
@@ -272,6 +287,7 @@ impl<'a> World<'a> {
                     self.res.hit("fault.cob.identical_create");
                     self.res.trace.log("patch-recreated", format!("{} created a patch identical to its own {} in the same second: same object id", self.reps[r].name, self.oname(&id)));
                 }
+                self.note_labels(r, &id, plabels.iter());
                 self.res.hit("probe.cob.patch_created");
                 self.res.trace.log("patch-create", format!("{} creates {} ({}..{})", self.reps[r].name, self.oname(&id), self.short(&base), self.short(&oid)));
             }
@@ -286,7 +302,7 @@ impl<'a> World<'a> {
         }
         let id = self.patches[self.ch.pick_usize(self.patches.len())];
         let c08 = self.own == "C08";
-        let r = if c08 && self.ch.pick(4) != 3 {
+        let r = if (c08 && self.ch.pick(4) != 3) || (self.own == "C07" && self.ch.pick(3) == 0) {
             // mostly a delegate acts
             let ds: Vec<usize> = (0..self.reps.len()).filter(|i| self.reps[*i].delegate).collect();
             ds[self.ch.pick_usize(ds.len())]
@@ -318,7 +334,7 @@ impl<'a> World<'a> {
         let rev = revs[self.ch.pick_usize(revs.len())];
         let merged_before = matches!(p.state(), patch::State::Merged { .. });
         let reviews: Vec<patch::ReviewId> = p.revisions().flat_map(|(_, rv)| rv.reviews().map(|(_, r)| r.id()).collect::<Vec<_>>()).collect();
-        let which = if c08 { self.ch.weighted(&[2, 2, 1, 9, 6, 2, 1, 0, 1, 0]) } else if self.own == "C07" { self.ch.weighted(&[8, 2, 7, 2, 2, 1, 2, 1, 4, 0]) } else { self.ch.weighted(&[8, 6, 6, 10, 6, 4, 4, 2, 4, 1]) };
+        let which = if c08 { self.ch.weighted(&[2, 2, 1, 9, 6, 2, 1, 0, 1, 0]) } else if self.own == "C07" { self.ch.weighted(&[8, 3, 7, 2, 2, 1, 2, 3, 6, 0]) } else { self.ch.weighted(&[8, 6, 6, 10, 6, 4, 4, 2, 4, 1]) };
         let mut p_remove = false;
         let mut p_noted_labels: Option<Vec<Label>> = None;
         let mut p_noted_assignees: Option<Vec<Did>> = None;
